@@ -5,3 +5,4 @@ pub mod gen;
 pub mod props;
 pub mod refs;
 pub mod drive;
+pub mod sess;
